@@ -7,15 +7,17 @@ SPEC = hdr_spec(
     rule=GEN_RULE + "interleaved with Clean (small and real prune depth), Save and Load; every script ends with a full dump (tip, Hash/Header at every height, "
          "every lookup on every header); non-trivial = at least 8 submissions",
     props_file="C01",
-    partial_note="TipMax is proved preserved by every ProcessHeader path separately (fork, extension of another branch, extension of the longest) but not yet "
-                 "across Clean/Save/Load, and 'every accepted header lies on some branch below its tip' is by construction of the model, not a theorem; "
-                 "the arrival-order independence clause is exercised (out-of-order and duplicate arrival), not proved.")
+    partial_note="for histories of submissions (any verdicts, automatic clean not due) both sentences are theorems: the tip has maximal accumulated work among all "
+                 "branch tips (C01_tip_maximal_submissions) and the held best-chain headers are linked, Header(k).prev = Hash(k-1), across branch boundaries "
+                 "(C01_chain_linked_submissions). Not yet theorems: the same across Clean/Save/Load (checked by correspondence + monitor on every generated history), "
+                 "that every accepted header lies below some branch tip (by construction of the model), arrival-order independence (exercised).")
 
 META = dict(
-    technique="Lean 4 proof (specification of Longest(); maximal-tip invariant preserved per ProcessHeader path) + model/implementation correspondence + Spec-level monitor",
-    text="Theorems for every repository state: Longest() returns a listed branch of maximal last accumulated work; whenever ProcessHeader re-selects the longest branch "
-         "(new branch started, or another branch extended) and answers ok the reported tip is such a branch; extending the longest branch adds the block's work (>= 1) and "
-         "keeps the tip maximal. The correspondence runs fork-heavy histories incl. sibling/cousin overtakes through the real code and the model; the monitor recomputes "
+    technique="Lean 4 proof (specification of Longest(); maximal-tip and linked-forest invariants by induction over submission histories) + model/implementation correspondence + Spec-level monitor",
+    text="Theorems: Longest() returns a listed branch of maximal last accumulated work; for EVERY finite history of submissions (any tree shape, duplicates, orphans, refusals, "
+         "repeated overtakes) from a state with maximal tip the reported tip has maximal accumulated work among all branch tips; the branch forest stays well linked "
+         "(parents before children, internal links, first header links to the parent's header at the fork height) so the best chain's held headers satisfy "
+         "Header(k).PrevBlock = Hash(k-1) down through forks of forks. The correspondence runs fork-heavy histories incl. sibling/cousin overtakes through the real code and the model; the monitor recomputes "
          "cumulative work of every header from the definitions and checks tip maximality and linkage of Hash(0..tip) on every dump.",
     note=COMMON_NOTE + "Partial: see coverage.partial in the evidence. Concurrent peers are reduced to sequential histories by the extracted lock shapes (C01_lock_shapes).",
 )
